@@ -17,6 +17,52 @@ fn arg_after(args: &[String], flag: &str) -> Option<String> {
     args.iter().position(|a| a == flag).and_then(|i| args.get(i + 1)).cloned()
 }
 
+/// replay the listed known findings of this property on the implementation; print KNOWN-FINDING while they reproduce
+fn replay_known(path: &str, prop: &str) {
+    let Ok(text) = std::fs::read_to_string(path) else { return };
+    for line in text.lines() {
+        let Some(rest) = line.strip_prefix("known: ") else { continue };
+        if !rest.starts_with(&format!("property={prop} ")) {
+            continue;
+        }
+        let (fields, desc) = rest.split_once(" :: ").unwrap_or((rest, ""));
+        let mut input = String::new();
+        let mut expect = String::new();
+        let mut files: Vec<(String, String)> = vec![];
+        let mut id = String::new();
+        for f in fields.split(' ') {
+            if let Some(v) = f.strip_prefix("input=") {
+                input = util::unhex_str(v);
+            } else if let Some(v) = f.strip_prefix("expect=") {
+                expect = util::unhex_str(v);
+            } else if let Some(v) = f.strip_prefix("id=") {
+                id = v.to_string();
+            } else if let Some(v) = f.strip_prefix("files=") {
+                for e in v.split(',') {
+                    if let Some((p, c)) = e.split_once(':') {
+                        files.push((p.to_string(), util::unhex_str(c)));
+                    }
+                }
+            }
+        }
+        let dir = props4::scratch_dir(&format!("known-{id}"));
+        for (p, c) in &files {
+            let full = dir.join(p);
+            std::fs::create_dir_all(full.parent().unwrap()).ok();
+            std::fs::write(full, c).ok();
+        }
+        let main_path = dir.join("main.ap");
+        std::fs::write(&main_path, &input).ok();
+        let r = imp::run_impl(&input, &main_path.to_string_lossy(), 20000, 32);
+        let _ = std::fs::remove_dir_all(&dir);
+        if r.output != expect || !matches!(r.end, imp::End::Ok) {
+            println!("KNOWN-FINDING: property={prop} id={id} {desc} [implementation: {} {:?}; the property requires {:?}]", r.status_str(), r.output, expect);
+        } else {
+            println!("  note: known finding {id} no longer reproduces on this tree");
+        }
+    }
+}
+
 fn main() {
     let args: Vec<String> = env::args().collect();
     imp::install_panic_hook();
@@ -79,6 +125,9 @@ fn main() {
             }
             for v in &violations {
                 println!("VIOLATION property={} replay={}", ctx.prop, v);
+            }
+            if let Some(known) = arg_after(&args, "--known") {
+                replay_known(&known, &ctx.prop);
             }
             println!(
                 "{}: {} evaluations, {} distinct, {} non-trivial, {} model disagreements, {} impl-vs-oracle failures, {} fuel-skipped, {:.1}s",
